@@ -128,7 +128,10 @@ def explore_config(case):
             res.fail(site=name + ".exp", clause="exp_is_expm", cls=cls,
                      detail=dict(x=x, tag=e["tag"], exp=X, err=er), sub="config", case=case)
             continue
-        # exp(-x) is the inverse
+        # exp(-x) is the inverse (for Euler targets -x itself must be outside the gimbal band: decided by the reference)
+        if rot_excluded(-x):
+            res.count("excluded_by_reference")
+            continue
         Xm = B.vec("exp", -x)
         ok, er = close(B.call("to_Matrix", Xm) @ MX, I, scale=1 + maxabs(MX) ** 2)
         if not ok:
